@@ -129,6 +129,49 @@ func containsCall(n ast.Node, name string) bool {
 	return found
 }
 
+// reaches reports whether the code in n calls `name` directly or through functions and methods
+// declared in the files of package core (followed up to `depth` levels; refactoring a check into a
+// helper must not hide it).
+func (f *Facts) reaches(n ast.Node, name string, depth int) bool {
+	if containsCall(n, name) {
+		return true
+	}
+	if depth == 0 {
+		return false
+	}
+	for _, m := range calledMethods(n) {
+		for _, fd := range f.coreFuncs()[m] {
+			if fd.Body != nil && f.reaches(fd.Body, name, depth-1) {
+				return true
+			}
+		}
+	}
+	return false
+}
+
+// coreFuncs indexes the function and method declarations of package core by name.
+func (f *Facts) coreFuncs() map[string][]*ast.FuncDecl {
+	if f.coreIdx != nil {
+		return f.coreIdx
+	}
+	f.coreIdx = map[string][]*ast.FuncDecl{}
+	entries, _ := os.ReadDir(filepath.Join(f.repo, "core"))
+	for _, e := range entries {
+		n := e.Name()
+		if e.IsDir() || !strings.HasSuffix(n, ".go") || strings.HasSuffix(n, "_test.go") || n == "verif_export.go" {
+			continue
+		}
+		if a := f.File(filepath.Join("core", n)); a != nil {
+			for _, d := range a.Decls {
+				if fd, ok := d.(*ast.FuncDecl); ok {
+					f.coreIdx[fd.Name.Name] = append(f.coreIdx[fd.Name.Name], fd)
+				}
+			}
+		}
+	}
+	return f.coreIdx
+}
+
 func calledMethods(n ast.Node) []string {
 	var out []string
 	ast.Inspect(n, func(x ast.Node) bool {
@@ -183,20 +226,8 @@ func extractInvokeSwitch(f *Facts) {
 			names = append(names, v)
 		}
 		body := &ast.BlockStmt{List: cc.Body}
-		g := containsCall(body, "ValidateSKI")
-		if !g {
-			for _, m := range calledMethods(body) {
-				for _, file := range []string{"core/cc_core.go", rel} {
-					if a := f.File(file); a != nil {
-						for _, d := range a.Decls {
-							if hd, ok := d.(*ast.FuncDecl); ok && hd.Name.Name == m && hd.Recv != nil && containsCall(hd.Body, "ValidateSKI") {
-								g = true
-							}
-						}
-					}
-				}
-			}
-		}
+		// guarded = the case (or a function of package core it calls, transitively) reaches ValidateSKI
+		g := f.reaches(body, "ValidateSKI", 4)
 		ret := false
 		if len(cc.Body) > 0 {
 			_, ret = cc.Body[len(cc.Body)-1].(*ast.ReturnStmt)
@@ -211,6 +242,10 @@ func extractInvokeSwitch(f *Facts) {
 			}
 		}
 	}
+	// as sets: the order of independent case clauses is not a fact the model depends on
+	sort.Strings(order)
+	sort.Strings(guarded)
+	sort.Strings(returning)
 	f.Lists["invokeCaseOrder"] = order
 	f.Lists["robotGuardedFns"] = guarded
 	f.Lists["returningCases"] = returning
